@@ -349,26 +349,8 @@ def run(chk, F, tier):
     chk.floor("parent-map sites (new, push, pop, update x2, per weight type)", len(parents), 12)
     chk.floor("child-map readers (get, try_sample per weight type)", len(children), 5)
     # ---------------------------------------------------------------- R6 try_sample error clause
-    for inst in insts_of(F, TREE + "try_sample"):
-        w = wname(F, inst)
-        t = next(t for t in F.types if t["s"] == w and t["k"] in ("int", "float"))
-        zero = Fl.point(0) if t["k"] == "float" else In(0, 0, t["bits"], t["signed"])
-        pos = small_elem(F, w)
-        for tl, tree, want_err in (("empty", St(None, [Vc(pos, usize(0))]), True), ("all-zero", St(None, [Vc(zero, usize(3))]), True),
-                                   ("positive", St(None, [Vc(pos, usize(3))]), False)):
-            ip = Interp(F, ax)
-            rv, st = ip.run_root(inst, [Rf(None, tree, False), Rf(None, Top(), True)])
-            outs = rules_c04.outcome_names(F, rv) if st is not None else {"diverges"}
-            real = outs - {"panic"}
-            key = "try_sample<%s> on %s tree" % (w, tl)
-            n_r6 += 1
-            if want_err and real != {"InsufficientNonZero"}:
-                chk.violation("try-sample-error", key, "%s returns %s instead of Err(InsufficientNonZero)" % (key, sorted(outs)))
-            elif not want_err and "InsufficientNonZero" in real:
-                chk.violation("try-sample-error", key, "%s may return InsufficientNonZero although the total is positive" % key)
-            else:
-                chk.ok("try-sample-error", key + " -> " + "/".join(sorted(real)))
-    chk.floor("try_sample error-clause cases", n_r6, 9)
+    n_r6 = try_sample_error_clause(chk, F, ax)
+    chk.floor("try_sample error-clause cases", n_r6, 15)
     # ---------------------------------------------------------------- R7 get: both children are subtracted unless out of range
     n_r7 = 0
     for inst in insts_of(F, TREE + "get"):
@@ -475,6 +457,32 @@ def run(chk, F, tier):
                               "(the comparisons taken do not pin weight == old weight)" % (w, "/".join(sorted(allowed - {"="}))), where=span_str(inst.get("span")))
     chk.floor("update: Ok-paths without a write", n_r8, 3)
     chk.notes.append("the two assertions at the end of try_sample cannot be discharged for float weights (rounding of the residual): reported under C03/C10 as not decided")
+
+
+def try_sample_error_clause(chk, F, ax, rule="try-sample-error"):
+    """try_sample returns InsufficientNonZero exactly when the tree is empty or its total is zero (abstract trees of exact shape)."""
+    n_r6 = 0
+    for inst in insts_of(F, TREE + "try_sample"):
+        w = wname(F, inst)
+        t = next(t for t in F.types if t["s"] == w and t["k"] in ("int", "float"))
+        zero = Fl.point(0) if t["k"] == "float" else In(0, 0, t["bits"], t["signed"])
+        pos = small_elem(F, w)
+        for tl, tree, want_err in (("empty", St(None, [Vc(pos, usize(0))]), True), ("all-zero", St(None, [Vc(zero, usize(3))]), True),
+                                   ("positive", St(None, [Vc(pos, usize(3))]), False), ("single zero weight", St(None, [Vc(zero, usize(1))]), True),
+                                   ("single positive weight", St(None, [Vc(pos, usize(1))]), False)):
+            ip = Interp(F, ax)
+            rv, st = ip.run_root(inst, [Rf(None, tree, False), Rf(None, Top(), True)])
+            outs = rules_c04.outcome_names(F, rv) if st is not None else {"diverges"}
+            real = outs - {"panic"}
+            key = "try_sample<%s> on %s tree" % (w, tl)
+            n_r6 += 1
+            if want_err and real != {"InsufficientNonZero"}:
+                chk.violation(rule, key, "%s returns %s instead of Err(InsufficientNonZero)" % (key, sorted(outs)))
+            elif not want_err and "InsufficientNonZero" in real:
+                chk.violation(rule, key, "%s may return InsufficientNonZero although the total is positive" % key)
+            else:
+                chk.ok(rule, key + " -> " + "/".join(sorted(real)))
+    return n_r6
 
 
 def _from_index_mut(fi, local, depth=0):
